@@ -23,7 +23,13 @@ RULE = (
     "slicing), parallel_temper, unslice_rand, get_subtree, and the generators "
     "rand_equation, tree_equation, randreg_equation, perverse_equation, "
     "lattice_equation, rand_tree, make_rand_size_dict_from_inputs, "
-    "make_arrays_from_inputs. Each batch is executed in THREE fresh "
+    "make_arrays_from_inputs, make_arrays_from_eq, networkx_graph_to_equation, "
+    "and GreedyCompressed / GreedySpan / ContractionProcessor.optimize_greedy "
+    "with a temperature, windowed_reconfigure and simulated_anneal of "
+    "compressed trees, jitter_dict, labels_partition, the kahypar partitioner. "
+    "A third of the tree cases call the seeded non-inplace operation twice on "
+    "ONE tree object (optionally one that was reconfigured before): the two "
+    "answers must coincide too. Each batch is executed in THREE fresh "
     "interpreters with PYTHONHASHSEED 0/1/4242, each seeding the global "
     "random/numpy generators differently and running every case twice with "
     "unrelated randomness-consuming calls in between. Oracle (differential): "
@@ -37,8 +43,14 @@ ASSUMPTIONS = [
 ]
 
 TREE_APIS = ["slice", "slicefinder", "reconf", "reconf_forest", "anneal", "temper", "unslice_rand", "get_subtree"]
-NET_APIS = ["random_greedy_opt", "random_greedy_fn", "random_opt", "labels_divide", "labels_agglom", "kahypar_divide", "kahypar_agglom", "rand_size_dict", "rand_arrays"]
-GEN_APIS = ["rand_equation", "tree_equation", "randreg_equation", "perverse_equation", "lattice_equation", "rand_tree"]
+NET_APIS = [
+    "random_greedy_opt", "random_greedy_fn", "random_opt", "labels_divide", "labels_agglom", "kahypar_divide",
+    "kahypar_agglom", "rand_size_dict", "rand_arrays",
+    "greedy_compressed", "greedy_span", "cp_greedy", "windowed", "compressed_anneal", "jitter_dict",
+    "labels_partition", "kahypar_partition",
+]
+GEN_APIS = ["rand_equation", "tree_equation", "randreg_equation", "perverse_equation", "lattice_equation", "rand_tree", "arrays_from_eq", "nx_equation"]
+ORDINARY_NET_APIS = ("greedy_compressed", "greedy_span", "windowed", "compressed_anneal")
 
 
 @st.composite
@@ -46,6 +58,10 @@ def case(draw):
     api = draw(st.sampled_from(TREE_APIS + TREE_APIS + NET_APIS + GEN_APIS))
     c = {"api": api, "seed": draw(st.integers(0, 2**31 - 1))}
     if api in TREE_APIS:
+        # a third of the tree cases call the seeded operation twice on ONE tree
+        # object, optionally one that has been reconfigured before
+        c["same_object"] = draw(st.integers(0, 2)) == 0
+        c["pre_reconf"] = draw(st.booleans())
         net = draw(gen.networks(min_n=4, max_n=10, volume_limit=2**60, max_dim=4, allow_size1=False, connected=draw(st.booleans())))
         c["net"] = net
         c["path"] = draw(gen.linear_paths(len(net["inputs"])))
@@ -67,8 +83,22 @@ def case(draw):
             c["args"] = {"size": draw(st.integers(2, 8))}
     elif api in NET_APIS:
         big = api.startswith(("labels", "kahypar"))
-        net = draw(gen.networks(min_n=12 if big else 3, max_n=30 if big else 12, volume_limit=2**60, max_dim=4, connected=draw(st.booleans())))
+        if api in ORDINARY_NET_APIS:
+            # the compressed finders are specified for connected ordinary networks
+            net = draw(gen.networks(min_n=4, max_n=12, volume_limit=2**60, max_dim=4, connected=True, allow_repeat=False, allow_scalar=False, allow_size1=False, allow_single=False))
+        else:
+            net = draw(gen.networks(min_n=12 if big else 3, max_n=30 if big else 12, volume_limit=2**60, max_dim=4, connected=draw(st.booleans())))
         c["net"] = net
+        if api in ("greedy_compressed", "greedy_span", "cp_greedy"):
+            c["args"] = {"chi": draw(st.sampled_from([2, 4, 16])), "temp": draw(st.sampled_from([0.1, 0.5, 2.0]))}
+        elif api == "windowed":
+            c["args"] = {"window": draw(st.integers(2, 6)), "iters": draw(st.integers(1, 6)), "temp": draw(st.sampled_from([0.0, 0.5, 2.0]))}
+        elif api == "compressed_anneal":
+            c["args"] = {"tsteps": draw(st.integers(1, 3)), "numiter": draw(st.integers(1, 3))}
+        elif api == "jitter_dict":
+            c["args"] = {"strength": draw(st.sampled_from([0.01, 0.5, 1.0]))}
+        elif api == "kahypar_partition":
+            c["args"] = {"parts": draw(st.integers(2, 4))}
         if api.startswith("random_greedy"):
             c["args"] = {"max_repeats": draw(st.integers(1, 6))}
         elif api.endswith("divide"):
@@ -85,6 +115,10 @@ def case(draw):
             c["args"] = {"n": 2 * draw(st.integers(2, 6)), "reg": 3}
         elif api == "perverse_equation":
             c["args"] = {"n": n, "ninds": draw(st.integers(2, 6)), "n_out": draw(st.integers(0, 2))}
+        elif api == "arrays_from_eq":
+            c["args"] = {"eq": draw(st.sampled_from(["ab,bc->ac", "abc,cd,d->ab", "a,a,a->", "ab,ab->"]))}
+        elif api == "nx_equation":
+            c["args"] = {"n": 2 * draw(st.integers(2, 6)), "gseed": draw(st.integers(0, 9))}
         elif api == "lattice_equation":
             c["args"] = {"dims": [draw(st.integers(2, 3)), draw(st.integers(2, 3))], "cyclic": draw(st.booleans())}
         else:
@@ -156,6 +190,11 @@ def run_batch(cases, scratch=None, extra_seed_probe=True):
                 raise HarnessError(f"c17 worker output unparsable: {so[:300]!r} {se.decode()[-800:]}")
     finally:
         shutil.rmtree(d, ignore_errors=True)
+    for o in outs:
+        for pair in o:
+            for d in pair:
+                if isinstance(d, dict) and "harness_raised" in d:
+                    raise HarnessError(f"c17 worker: {d['harness_raised']}")
     per_case = []
     for i in range(len(cases)):
         per_case.append([outs[v][i][r] for v in range(len(HASHSEEDS)) for r in range(2)])
@@ -167,6 +206,17 @@ def judge(cases, per_case):
     bad = []
     for i, digs in enumerate(per_case):
         canon = [json.dumps(d, sort_keys=True) for d in digs]
+        d0 = digs[0]
+        if isinstance(d0, dict) and set(d0) == {"first", "second"} and d0["first"] != d0["second"]:
+            bad.append(
+                (
+                    i,
+                    f"{cases[i]['api']}(seed={cases[i]['seed']}) called twice on the same tree object with the same "
+                    f"arguments (inplace=False) gave different results: {json.dumps(d0['first'])[:120]} vs "
+                    f"{json.dumps(d0['second'])[:120]}",
+                )
+            )
+            continue
         if len(set(canon)) != 1:
             a = canon[0]
             j = next(k for k, c in enumerate(canon) if c != a)
